@@ -29,6 +29,7 @@ def run(ctx):
     core.design_check(ctx, "Sessions.tla", "Sessions.cfg", timeout=900)
     behs = core.generate(ctx, "Gen_Sessions.tla", "Gen_Sessions_bfs.cfg", 0, 0, ctx.seed, bfs=True, timeout=900)
     behs += core.generate(ctx, "Gen_Sessions.tla", "Gen_Sessions.cfg", 200 if quick else 4000, 8, ctx.seed, timeout=900)
+    behs += core.generate(ctx, "Gen_Sessions.tla", "Gen_Sessions_restart.cfg", 150 if quick else 3000, 7, ctx.seed, timeout=900)      # a restart in the middle
     trace, summ = core.run_harness(ctx, hb, "sessions", behs, "sessions", timeout=1800)
     for inc in summ["incidents"]:
         core.report(ctx, {"check": "replay", "kind": inc["kind"], "site": inc["site"]}, inc)
